@@ -103,8 +103,8 @@ def parse_ace_standard(line: str) -> DStr:
     _items = h.re_find_t(regex, line)
     if not _items:
         return {}
-    if h.findall1(f"^ ({addr})(?: |$)", _items[3]):
-        return {}  # second address, not standard ACE
+    if any(s not in ("log", "log-input") for s in _items[3].split()):
+        return {}  # standard ACE has no other options (second address, port, etc.)
 
     items = [s.strip() for s in _items]
     data = dict(
